@@ -529,4 +529,47 @@ func litestream.(*DB).sync(db, ctx, checkpointing, exec, info, maxSyncWALBytes) 
   ensures [C01.skip] err == nil && !result.synced ==> !pub_renamed
   ensures [C01.tiling] err == nil && result.synced ==> sync_hdr && result.newWALSize == sync_off + sync_sz
   ensures [C01.error-no-ack] err != nil ==> !result.synced
+
+// ---------------------------------------------------------------------------
+// C05: uploads in TXID order, position advanced only after a successful upload, cleared on error.
+ghost c05_writeErr Int
+ghost c05_upErr Int
+ghost c05_dpos Int
+ghost c05_uploaded Bool
+ghost c05_lockErr Int
+
+func litestream.(*Replica).uploadLTXFile(r, ctx, level, minTXID, maxTXID) (err)
+  requires r != nil
+  modifies $alloc, l0_has, file_closed, c05_writeErr
+  at litestream.ReplicaClient.WriteLTXFile#1 assert [C05.upload-args] $arg1 == level && $arg2 == minTXID && $arg3 == maxTXID && $arg4 == f && f != nil && $recv == r.Client
+  at litestream.ReplicaClient.WriteLTXFile#1 set c05_writeErr = $result1
+  ensures [C05.upload-result] err == nil ==> c05_writeErr == nil && l0_has[r.Client][maxTXID] || level != 0
+  ensures [C05.upload-fail] c05_writeErr != nil ==> err != nil
+
+func litestream.(*Replica).MaxLTXFileInfo(r, ctx, level) (info, err)
+  requires r != nil
+  modifies $alloc, it_idx
+  ensures [C05.calcpos-max] err == nil ==> info.MaxTXID < 9223372036854775807
+  loop 0 invariant itr != nil && itOK(itr) && it_client[itr] == r.Client && it_level[itr] == level && r.Client == old(r.Client) && wfLevel(r.Client, level)
+  loop 0 invariant info.MaxTXID < 9223372036854775807 && (forall k int :: {item(itr, k)} 0 <= k && k < it_idx[itr] ==> fmax(item(itr, k)) <= info.MaxTXID)
+
+func litestream.(*Replica).calcPos(r, ctx) (pos, err)
+  requires r != nil
+  modifies $alloc, it_idx
+  ensures [C05.calcpos] err == nil ==> pos.TXID < 9223372036854775807
+
+func litestream.(*Replica).syncOnce(r, ctx, maxSyncLTXFiles) (result, err)
+  requires r != nil && r.db != nil && !c05_uploaded && r.pos.TXID < 9223372036854775807
+  modifies $alloc, it_idx, l0_has, file_closed, c05_writeErr, c05_upErr, c05_dpos, c05_uploaded, c05_lockErr, r.pos, all(litestream.DB)
+  at litestream.(*Replica).lockSync#1 set c05_lockErr = $result0
+  at litestream.(*DB).Pos#1 set c05_dpos = $result0.TXID
+  at litestream.(*Replica).uploadLTXFile#all assert [C05.order] $arg1 == 0 && $arg2 == r.pos.TXID + 1 && $arg3 == $arg2 && $arg2 <= c05_dpos
+  at litestream.(*Replica).uploadLTXFile#1 set c05_upErr = $result0
+  at litestream.(*Replica).uploadLTXFile#1 set c05_uploaded = true
+  at litestream.(*Replica).SetPos#2 assert [C05.advance] c05_uploaded && c05_upErr == nil && $arg0.TXID == r.pos.TXID + 1 && $arg0.TXID == txID
+  ensures [C05.clear] err != nil && c05_lockErr == nil ==> r.pos.TXID == 0
+  ensures [C05.ack] err == nil && !result.limited ==> r.pos.TXID >= c05_dpos
+  ensures [C05.synced-flag] result.synced ==> c05_uploaded
+  ensures [C05.ack-not-ahead] err == nil && !result.limited ==> r.pos.TXID <= c05_dpos
+  loop 0 invariant r.db == old(r.db) && txID == r.pos.TXID + 1 && dpos.TXID == c05_dpos && (result.synced ==> c05_uploaded) && !result.limited
 */
